@@ -2,6 +2,7 @@
 # usage: seedtest.sh [seed-id ...]   -- applies each seeded change to /repo, runs the check(s) of its property, reverts.
 # Results are appended to /verif/seeded/RESULTS.txt
 cd /verif
+export VERIF_EVIDENCE_DIR=/var/tmp/tzrs-verif-evidence-scratch
 ids=("$@"); [ ${#ids[@]} -eq 0 ] && ids=($(ls seeded | grep -E '^C[0-9]+-[0-9]+$'))
 if [ -n "$(git -C /repo status --porcelain -- src)" ]; then echo "/repo/src is not clean"; exit 2; fi
 for id in "${ids[@]}"; do
